@@ -108,6 +108,8 @@ pub fn judge(case: &Case, acc: &mut Acc) {
     let mut argv: Vec<String> = vec!["-t".into(), case.to.name().into()];
     let mut stdin: Vec<u8> = vec![];
     let mut stdin_used = false;
+    // (position among the path operands, name, content) of FIFO inputs
+    let mut fifos: Vec<(usize, String, Vec<u8>)> = vec![];
     for (i, size) in case.sizes.iter().enumerate() {
         let failing = case.fail_at == Some(i);
         let name = format!("f{i}.json");
@@ -188,13 +190,33 @@ pub fn judge(case: &Case, acc: &mut Acc) {
             stdin_used = true;
             argv.push("-".into());
         } else if *size <= 3000 && i % 2 == 1 {
-            // generated content in any source format, ending in an empty string / empty collection / ...
+            // generated content in any source format, ending in an empty string / empty collection / ...,
+            // delivered as a regular file, on standard input (format detected) or through a FIFO
             let (b, ext) = generated_input(&mut rng, case.to);
-            let n2 = format!("f{i}.{ext}");
             acc.count(&format!("generated_input_{ext}"));
-            sc.file(&n2, &b);
-            files.insert(n2.clone(), PathKind::Regular(b));
-            argv.push(n2);
+            match rng.below(4) {
+                0 if !stdin_used && case.failure != "second_use_of_stdin" => {
+                    acc.count("generated_input_on_stdin");
+                    stdin = b;
+                    stdin_used = true;
+                    argv.push("-".into());
+                }
+                1 => {
+                    // a FIFO, named with or without the telling extension
+                    let n2 = if rng.chance(1, 2) { format!("p{i}.{ext}") } else { format!("p{i}") };
+                    acc.count("generated_input_through_fifo");
+                    sc.fifo(&n2);
+                    files.insert(n2.clone(), PathKind::Fifo(b.clone()));
+                    fifos.push((argv.len() - 2, n2.clone(), b));
+                    argv.push(n2);
+                }
+                _ => {
+                    let n2 = format!("f{i}.{ext}");
+                    sc.file(&n2, &b);
+                    files.insert(n2.clone(), PathKind::Regular(b));
+                    argv.push(n2);
+                }
+            }
         } else {
             let b = good_input(*size, &mut rng, single);
             sc.file(&name, &b);
@@ -205,6 +227,14 @@ pub fn judge(case: &Case, acc: &mut Acc) {
     let paths: Vec<String> = argv[2..].to_vec();
     let kind = if case.stdout_file { StdoutKind::File } else { StdoutKind::Pipe };
     let exp = climodel::emulate(None, case.to, &paths, &files, &stdin, &kind);
+    // FIFOs are fed only as far as the model says xt will get (a FIFO nobody opens would block its feeder)
+    let reached = exp.inputs.len() + 1;
+    let mut feeders = vec![];
+    for (pos, name, content) in &fifos {
+        if *pos < reached {
+            feeders.push(procmon::feed_fifo(sc.path().join(name), content.clone()));
+        }
+    }
     let out = procmon::run(Run { bin: &procmon::release_bin(), argv: argv.clone(), cwd: sc.path(), stdin: StdinKind::Bytes(stdin.clone()), stdout: kind, wall_secs: 120, cpu_secs: 60 });
     acc.count(&format!("expected_exit_{}", exp.exit));
     acc.count(&format!("failure_{}", if case.fail_at.is_some() { case.failure } else { "none" }));
@@ -244,9 +274,9 @@ pub fn run(ctx: &Ctx) -> i32 {
         acc.sample_every(149, || case.json());
         judge(&case, acc);
     });
-    let rule = format!("{} invocations: 1-6 inputs with sizes from 5 B to 4 MiB (mostly below the 8 KiB stdout buffer, some straddling it, some far above), the failing input at every position in turn (or none), failure kinds {:?}, all four targets, stdout a pipe or a file, some inputs through standard input; every second small input is a generated document in a random source format and spelling (named by its extension) whose last value is an empty string, an empty collection or another value that serializers finish with an unusual final write; expectation computed with the library; distinct non-trivial = distinct invocations", n, FAILURES);
+    let rule = format!("{} invocations: 1-6 inputs with sizes from 5 B to 4 MiB (mostly below the 8 KiB stdout buffer, some straddling it, some far above), the failing input at every position in turn (or none), failure kinds {:?}, all four targets, stdout a pipe or a file, some inputs through standard input; every second small input is a generated document in a random source format and spelling (named by its extension) whose last value is an empty string, an empty collection or another value that serializers finish with an unusual final write, delivered as a regular file, on standard input (format detected) or through a FIFO (named with or without its extension); expectation computed with the library; distinct non-trivial = distinct invocations", n, FAILURES);
     ev::finish(
-        Finish { ctx, level: "fault_enumeration", rule, assumptions: vec!["how much of the FAILING input's own partial output reaches stdout is left open (anything between nothing and all of it)".into()], extra: serde_json::Map::new(), exhaustive: false, min_distinct: 300, must_reach: vec![("failures_with_earlier_output_below_buffer_size".into(), 100), ("expected_exit_0".into(), 50), ("failing_position_0".into(), 20), ("failing_position_3".into(), 20), ("generated_input_msgpack".into(), 30), ("generated_input_yaml".into(), 30), ("generated_input_json".into(), 30)] },
+        Finish { ctx, level: "fault_enumeration", rule, assumptions: vec!["how much of the FAILING input's own partial output reaches stdout is left open (anything between nothing and all of it)".into()], extra: serde_json::Map::new(), exhaustive: false, min_distinct: 300, must_reach: vec![("failures_with_earlier_output_below_buffer_size".into(), 100), ("expected_exit_0".into(), 50), ("failing_position_0".into(), 20), ("failing_position_3".into(), 20), ("generated_input_msgpack".into(), 30), ("generated_input_yaml".into(), 30), ("generated_input_json".into(), 30), ("generated_input_on_stdin".into(), 20), ("generated_input_through_fifo".into(), 30)] },
         acc,
     )
 }
